@@ -997,13 +997,13 @@ theorem C03_tie_op_Area_GeometryCollection (gs : List (Geom Rat)) :
   · simp [opAreaGeom, opAreaAcc_foldl]
   · intro s i x; rfl
 
-/-- the type switch of `op.Area` assembled from its regenerated cases; a geometry no case lists leaves `a := 0.`
-and `math.Abs(a)` is returned (this line is hand-written) -/
+/-- the type switch of `op.Area` assembled from its regenerated cases (`op_Area_other`: a geometry no case lists runs
+only the statements around the switch, `a := 0.` … `return math.Abs(a)`; only the dispatch itself is written here) -/
 def opAreaSwitch (self : Geom Rat → Go.M Rat) : Geom Rat → Go.M Rat
   | .polygon p => Gen.op_Area_Polygon p
   | .multiPolygon mp => Gen.op_Area_MultiPolygon mp
   | .collection gs => Gen.op_Area_GeometryCollection self gs
-  | _ => pure (absR 0)
+  | g => Gen.op_Area_other g
 
 /-- **`op.Area` on every geometry**: the model `opAreaGeom` is a fixed point of the regenerated type switch —
 when the recursive calls return the model's values, so does the call, without fault -/
@@ -1013,7 +1013,7 @@ theorem C03_tie_op_Area_Geom (g : Geom Rat) :
   | polygon p => simp [opAreaSwitch, opAreaGeom, C03_tie_op_Area_Polygon]
   | multiPolygon mp => simp [opAreaSwitch, opAreaGeom, C03_tie_op_Area_MultiPolygon]
   | collection gs => exact C03_tie_op_Area_GeometryCollection gs
-  | _ => simp [opAreaSwitch, opAreaGeom, absR, pure, Except.pure]
+  | _ => simp [opAreaSwitch, opAreaGeom, Gen.op_Area_other, absR, pure, Except.pure]
 
 /-! ## bounds.go -/
 
@@ -1080,12 +1080,12 @@ theorem C03_tie_op_Length_GeometryCollection (gs : List (Geom α)) :
   · simp [opLengthGeom, opLengthAcc_foldl]
   · intro s i x; rfl
 
-/-- the type switch of `op.Length` assembled from its regenerated cases; a geometry no case lists leaves `l := 0.` -/
+/-- the type switch of `op.Length` assembled from its regenerated cases (`op_Length_other`: a geometry no case lists) -/
 def opLengthSwitch (self : Geom α → Go.M α) : Geom α → Go.M α
   | .lineString l => Gen.op_Length_LineString l
   | .multiLineString ml => Gen.op_Length_MultiLineString ml
   | .collection gs => Gen.op_Length_GeometryCollection self gs
-  | _ => pure (RNum.ofNat 0)
+  | g => Gen.op_Length_other g
 
 /-- **`op.Length` on every geometry**: `opLengthGeom` is a fixed point of the regenerated type switch -/
 theorem C03_tie_op_Length_Geom (g : Geom α) :
@@ -1094,7 +1094,7 @@ theorem C03_tie_op_Length_Geom (g : Geom α) :
   | lineString l => simp [opLengthSwitch, opLengthGeom, C03_tie_op_Length_LineString]
   | multiLineString ml => simp [opLengthSwitch, opLengthGeom, C03_tie_op_Length_MultiLineString]
   | collection gs => exact C03_tie_op_Length_GeometryCollection gs
-  | _ => simp [opLengthSwitch, opLengthGeom, pure, Except.pure]
+  | _ => simp [opLengthSwitch, opLengthGeom, Gen.op_Length_other, pure, Except.pure]
 
 /-- `LineString.Length` as regenerated returns, without fault, the model's `lineStringLength` -/
 theorem C03_tie_LineString_Length (l : List (Pt α)) : Gen.lineString_Length l = .ok (lineStringLength l) := by
